@@ -2,7 +2,7 @@
 # Re-run every seeded change kept under /verif/seeded against its property's quick check and record the outcome.
 # usage: tools/confirm_seeds.sh [source-dir]   (source-dir: where patch.diff/demo.py/meta.json live; default /verif/seeded)
 src=${1:-/verif/seeded}
-for d in $(ls $src | grep -E '^C[0-9]{2}[ab]$'); do
+for d in $(ls $src | grep -E "^C[0-9]{2}[a-z]$"); do
   p=${d:0:3}
   mkdir -p /verif/seeded/$d
   for f in patch.diff demo.py meta.json; do [ -f $src/$d/$f ] && [ "$src" != "/verif/seeded" ] && cp $src/$d/$f /verif/seeded/$d/$f; done
